@@ -316,6 +316,7 @@ func Run(c *run.Ctx) {
 	random(c, "int", c.N(150000, 1500000))
 	random(c, "str", c.N(150000, 1500000))
 	concurrent(c, c.N(160, 1600))
+	pipeline(c, c.N(130, 1300), next)
 }
 
 func replay(c *run.Ctx, cs *Case) {
@@ -326,6 +327,8 @@ func replay(c *run.Ctx, cs *Case) {
 		runSliceCase(c, cs)
 	case "conc":
 		runConc(c, cs)
+	case "pipe":
+		pipelineOne(c, cs)
 	case "pin":
 		for _, p := range pinList() {
 			if p.name == cs.Name {
